@@ -9,7 +9,7 @@ from ..oracles import pyfront
 ID = "C19"
 LEVEL = "exploration"
 BUDGET = {"quick": 150, "thorough": 1500}
-EXAMPLES = {"quick": 110, "thorough": 2500}
+EXAMPLES = {"quick": 170, "thorough": 2500}
 RULE = ("cases = generated project trees (<=24 files, depth<=3, regular/namespace packages) whose files contain only "
         "definitions (def/async def/class/assignment/annotated assignment, nested ones, parameters), imports, comments "
         "and strings over a small name pool with case variants and prefix-related names; ignored places: venv/.venv/"
